@@ -498,7 +498,9 @@ def store_thing(output, key, item):
             try:
                 output.write_array(key,np.array(item))
                 
-            except TypeError:
+            except (TypeError, ValueError):
+                # not a regular array (ragged rows raise ValueError on
+                # current numpy): store the entries one by one
                 for idx,val in enumerate(item):
                     new_key = '{}{}'.format(key,idx)
                     store_thing(output,new_key,val)
